@@ -194,6 +194,12 @@ def _one_obj(rng, p_bad):
         w, rel = v ^ (rng.randrange(1, 16) << (4 * rng.randrange(2 * nb))), "nibble"
     elif r < 0.70:
         w, rel = (v + rng.choice([-1, 1])) % (1 << (8 * nb)), "plusminus1"
+    elif r < 0.76:
+        # distinct values that collide under CPython's integer hash (modulus 2**61 - 1) or in their low / high bits
+        k = rng.choice([(1 << 61) - 1, 2 * ((1 << 61) - 1), 1 << 32, 1 << 48, 1 << 56, (1 << 31) - 1])
+        w, rel = (v + rng.choice([-1, 1]) * k) % (1 << (8 * nb)), "congruent"
+        if w == v:
+            w = (v + 1) % (1 << (8 * nb))
     elif r < 0.85:
         w, rel = rand_value(nb, rng), "unrelated"
     else:
